@@ -34,6 +34,12 @@ GrowAct == /\ S.copies # <<>> /\ ~Finished(K, S) /\ Len(S.links) < MaxSteps
 Next == StartAct \/ GrowAct
 Spec == Init /\ [][Next]_vars
 
+(* ---- termination: the weight is a variant function; under fairness every run ends finished, at a dead end or at the bound ---- *)
+FairSpec == Spec /\ WF_vars(Next)
+InvPositiveMass == \A f \in DOMAIN K.frags : K.frags[f].mass > 0       \* assumption of the argument (a zero mass would loop)
+WeightGrows == [][S.copies # <<>> => S'.weight > S.weight]_vars
+Terminates == <>(S.copies # <<>> /\ (Finished(K, S) \/ ~SomeEnabled(K, S) \/ Len(S.links) >= MaxSteps))
+
 InvTree == Tree(S)
 InvComplementary == Complementary(K, S)
 InvOnce == S.copies # <<>> => Once(K, S)
